@@ -1,6 +1,6 @@
 #!/bin/bash
 # revert each of today's fix commits on a scratch worktree and require the associated check to report a violation
-declare -A PROP=( [90f29f1]=C05 [992d5cf]=C05 [701fc8d]=C18 [06e3b93]="C06 C12" [5688ec4]=C01 [eb49857]=C13 [f2ba281]=C13 [dde3ad3]=C09 [1a95970]=C09 [bd89314]=C10 [752f5ff]=C12 [7416e1c]=C15 [d89a871]=C05 [0d39486]=C09 [3e02ac1]=C13 [045c56b]=C10 [a5674b2]=C12 [e781dec]=C14 [a53aa76]=C15 [203b202]=C01 )
+declare -A PROP=( [90f29f1]=C05 [992d5cf]=C05 [701fc8d]=C18 [06e3b93]="C06 C12" [5688ec4]=C01 [eb49857]=C13 [f2ba281]=C13 [dde3ad3]=C09 [1a95970]=C09 [bd89314]=C10 [752f5ff]=C12 [7416e1c]=C15 [d89a871]=C05 [0d39486]=C09 [3e02ac1]=C13 [045c56b]=C10 [a5674b2]=C12 [e781dec]=C14 [a53aa76]=C15 [203b202]=C01 [ef93e68]=C13 [1f19af9]=C06 )
 for h in "${!PROP[@]}"; do
   wt=/tmp/rv_$h; out=/tmp/rvout_$h
   git -C /repo worktree add -q --detach $wt HEAD
